@@ -142,6 +142,10 @@ def mut_cases(draw, tier="quick"):
         lens = [draw(st.integers(100, 132))] + [draw(st.integers(4, 24)) for _ in range(draw(st.integers(20, 200)))]
         return dict(base=base, muts=[], loop=None, idx_lens=lens, tool=draw(st.sampled_from(["list", "describe", "stat", "sqfs2tar", "diff", "unpack"])),
                     path=draw(st.sampled_from([b"/", b"/idx", b"/idx"])))
+    if draw(st.sampled_from([False] * 7 + [True])):
+        return dict(base=base, muts=muts[:1], loop=None, sbflags=draw(st.sampled_from([0x0200, 0x0200, 0x0080, 0x0010, 0x0020, 0x0001, 0x0002, 0x0800, 0x0400, 0x0290])),
+                    tool=draw(st.sampled_from(["list", "describe", "stat", "xattr", "cat", "unpack", "unpack", "sqfs2tar", "diff"])),
+                    path=draw(st.sampled_from([b"/", b"/sub", b"/big", b"/f03", b"/sub/hl"])))
     focus = draw(st.sampled_from([False, False, True]))
     if focus:
         # one field of a regular file's inode (size, block words, fragment location, start) changed, then the data of exactly that file is read
@@ -184,6 +188,13 @@ def build_mutated(case):
     img = bytearray(img)
     fields = [f for f in lay if f[1] + f[2] <= len(img)]
     applied = []
+    if case.get("sbflags"):
+        # super block feature flags that contradict what the image contains (no-xattrs with xattr indices in use, exportable without
+        # export table, no-fragments with fragments, ...)
+        cur = int.from_bytes(img[24:26], "little")
+        new_ = cur ^ case["sbflags"]
+        img[24:26] = new_.to_bytes(2, "little")
+        applied.append(("sb.flags", cur, new_))
     # a quarter of the mutations aim at the fields that describe where and how long data is (block words, sizes, fragment locations)
     hot = [f for f in fields if any(k in f[0] for k in ("blk", "size", "frag", "start"))] or fields
     filef = [f for f in fields if ".file." in f[0] and not f[0].endswith((".nlink", ".xattr"))] or fields
